@@ -88,6 +88,14 @@ bool data_type_is_numeric(DataType dtype) {
 }
 
 
+bool data_type_is_convertible(DataType from, DataType to) {
+    if (from == to) {
+        return true;
+    }
+    return data_type_is_numeric(to) && (data_type_is_numeric(from) || from == DataType::Bool);
+}
+
+
 std::ostream &operator<<(std::ostream &out, const DataType dtype) {
     out << data_type_to_string(dtype);
     return out;
